@@ -1,7 +1,12 @@
 #!/usr/bin/env python3
 """Extract from /repo/src the program-text facts C04 quantifies over and write them as Lean data
 (lean/FlatModel/Generated/SourceFacts.lean). Anything the extractor does not recognise becomes an
-`other` constructor, which the theorems in Props/C04.lean reject — it never guesses."""
+`other` constructor, which the theorems in Props/C04.lean reject — it never guesses.
+
+Also extracted (C07): the tuning constant of the heavy-hitter summary, the literal `N` of `Vec::with_capacity(N)` in
+`impl<T> Default for MisraGries<T>` (`mgCapacity`; the model's `MG.cap`, the theorems of Props/C07*.lean and the
+generator tools/props/c07.py follow it). If the shape is not recognised the value emitted is 0, which
+`FC.Codec.MG.two_le_cap` (Proofs/MGCap.lean, `by decide`) rejects."""
 import os
 import re
 import sys
@@ -50,8 +55,27 @@ def block_after(text, pos):
     return text[i:]
 
 
+MG_DEFAULT_RE = re.compile(r"^\{fndefault\(\)->Self\{Self\{inner:Vec::with_capacity\(([0-9][0-9_]*)(?:usize)?\),?\}\}\}$")
+
+
+def mg_capacity(lib):
+    """(N, None) for the one `impl<T> Default for MisraGries<T> { fn default() -> Self { Self { inner: Vec::with_capacity(N) } } }`
+    of the library text `lib`, when every summary in the file is built by `MisraGries::default()`; else (None, why)"""
+    heads = list(re.finditer(r"^\s*impl\s*<\s*T\s*>\s*Default\s+for\s+MisraGries\s*<\s*T\s*>\s*\{", lib, flags=re.M))
+    if len(heads) != 1:
+        return None, "%d `impl<T> Default for MisraGries<T>` blocks" % len(heads)
+    body = re.sub(r"\s+", "", block_after(lib, heads[0].start()))
+    m = MG_DEFAULT_RE.match(body)
+    if not m:
+        return None, "body of `default` is not `Self { inner: Vec::with_capacity(<literal>) }`: " + body[:120]
+    if re.search(r"\bMisraGries\s*(::\s*<[^>]*>\s*)?::\s*with_capacity\s*\(", lib):
+        return None, "a summary is built by `MisraGries::with_capacity(..)`, not by `default()`"
+    return int(m.group(1).replace("_", "")), None
+
+
 def main():
     unsafe_sites = []
+    mg_cap, mg_why = None, "src/impls/codec.rs not found"
     push_impls = []
     mutators = []
     inner_private = None
@@ -68,6 +92,8 @@ def main():
         lib = text if cut < 0 else text[:cut]
         for m in re.finditer(r"\bunsafe\b", lib):
             unsafe_sites.append((rel, enclosing_impl(lib, m.start()), enclosing_fn(lib, m.start())))
+        if rel == os.path.join("impls", "codec.rs"):
+            mg_cap, mg_why = mg_capacity(lib)
         if rel == os.path.join("impls", "string.rs"):
             sm = re.search(r"pub struct StringRegion\b[^{;]*\{([^}]*)\}", lib)
             if sm:
@@ -125,6 +151,12 @@ def main():
     w("def stringInnerPrivate : Bool := %s" % ("true" if inner_private else "false"))
     w("/-- every `&mut self` method implemented for `StringRegion` -/")
     w("def stringMutators : List Mutator := [%s]" % ", ".join(MUT.get(m, ".other") for m in mutators))
+    w("/-- the literal `N` of `Vec::with_capacity(N)` in `impl<T> Default for MisraGries<T>` (src/impls/codec.rs): the number of raw")
+    w("entries at which the heavy-hitter summary compacts (C07). `0` = shape not recognised (rejected by `FC.Codec.MG.two_le_cap`). -/")
+    if mg_cap is not None:
+        w("def mgCapacity : Nat := %d" % mg_cap)
+    else:
+        w("def mgCapacity : Nat := 0 -- not recognised: %s" % re.sub(r"\s+", " ", mg_why).replace("-/", "- /"))
     w("end FC.Generated")
     text = "\n".join(o) + "\n"
     path = os.path.join(ROOT, "lean", "FlatModel", "Generated", "SourceFacts.lean")
@@ -134,7 +166,7 @@ def main():
     # human-readable copy for the evidence
     import json
     json.dump({"unsafe_sites": unsafe_sites, "string_push_impls": push_impls, "string_inner_private": inner_private,
-               "string_mutators": mutators}, open(os.path.join(ROOT, "work", "source_facts.json"), "w") if os.path.isdir(os.path.join(ROOT, "work")) else open(os.devnull, "w"), indent=1)
+               "string_mutators": mutators, "mg_capacity": mg_cap, "mg_capacity_unrecognised": mg_why}, open(os.path.join(ROOT, "work", "source_facts.json"), "w") if os.path.isdir(os.path.join(ROOT, "work")) else open(os.devnull, "w"), indent=1)
 
 
 if __name__ == "__main__":
